@@ -30,15 +30,15 @@ def names():
     return _NAMES
 
 
-def build(node, H, salt: int, eolstr: str, strip_meta=False):
+def build(node, H, salt: int, eolstr: str, strip_meta=False, late_meta=False):
     """gamma: abstract node -> real object (None for a stripped metadata node)."""
     k, i = node["k"], node["id"]
     if k == "E":
         return "" if (i + salt) % 2 == 0 else H.HTML("")
     if k in ("T", "H", "R"):
-        tail = "".join(eolstr if t[0] == "eol" else ("  " if t[0] == "ind" else "\n" if t[0] == "nl" else f"{L}{t[1]}{R}")
-                       for t in node.get("tail", []))
-        payload = f"{L}{i}{R}{tail}"
+        txt = lambda toks: "".join(eolstr if t[0] == "eol" else ("  " if t[0] == "ind" else "\n" if t[0] == "nl" else f"{L}{t[1]}{R}")
+                                   for t in toks)
+        payload = f"{txt(node.get('pre', []))}{L}{i}{R}{txt(node.get('tail', []))}"
         if k == "T":
             return payload
         if k == "H":
@@ -59,7 +59,7 @@ def build(node, H, salt: int, eolstr: str, strip_meta=False):
         if m == 3:
             return H.HTMLDependency(f"lazy{i}", "0.1", head=gamma.Tfy(lambda: H.tags.title("t")))
         return H.head_content(H.tags.title(str(i)))
-    kids = [build(c, H, salt, eolstr, strip_meta) for c in node["c"]]
+    kids = [build(c, H, salt, eolstr, strip_meta, late_meta) for c in node["c"]]
     kids = [x for x in kids if x is not None] if strip_meta else kids
     if k == "L":
         return H.TagList(*kids)
@@ -68,6 +68,15 @@ def build(node, H, salt: int, eolstr: str, strip_meta=False):
         name = nm["void"][(i + salt) % len(nm["void"])]
     else:
         name = nm["nonvoid"][(i * 7 + salt) % len(nm["nonvoid"])]
+        if (i + salt) % 6 == 0:
+            name = ["pre", "textarea", "listing", "title", "option", "p"][(i * 5 + salt) % 6]   # names parsers treat specially
+    if late_meta and not strip_meta:
+        # gamma option: metadata nodes arrive after construction, through the child list itself
+        t = H.Tag(name, {"i": str(i)}, *[x for x, c in zip(kids, node["c"]) if c["k"] != "M"], _add_ws=(k in ("B", "V")))
+        for pos, (x, c) in enumerate(zip(kids, node["c"])):
+            if c["k"] == "M":
+                [t.children.insert, t.insert][(i + pos) % 2](pos, x)
+        return t
     return H.Tag(name, {"i": str(i)}, *kids, _add_ws=(k in ("B", "V")))
 
 
@@ -134,7 +143,7 @@ def render(obj, H, indent, eolstr, addws):
 
 
 def norm_tree(t):
-    return {"k": t["k"], "id": t["id"], "tail": t.get("tail", []), "c": [norm_tree(c) for c in t.get("c", [])]}
+    return {"k": t["k"], "id": t["id"], "tail": t.get("tail", []), "pre": t.get("pre", []), "c": [norm_tree(c) for c in t.get("c", [])]}
 
 
 def has_kind(t, ks):
@@ -186,7 +195,7 @@ class _LayoutBase(Prop):
                 k = rnd.choice("THRMTTVWE")
             else:
                 k = rnd.choice("BBBIIIVWTTTHRME")
-            nd = {"k": k, "id": i, "c": [], "tail": []}
+            nd = {"k": k, "id": i, "c": [], "tail": [], "pre": []}
             if k in "BIVWL":
                 if k in "VW" and rnd.random() < 0.7 and not root:
                     nkids = rnd.choice([0, 0, 1])
@@ -202,6 +211,11 @@ class _LayoutBase(Prop):
                                          [["eol", 0], ["ind", 0], ["ind", 0]], [["eol", 0], ["eol", 0]],
                                          [["eol", 0], ["leaf", i]], [["eol", 0], ["ind", 0], ["leaf", i], ["eol", 0], ["leaf", i]],
                                          [["nl", 0]], [["nl", 0], ["leaf", i]], [["nl", 0], ["ind", 0], ["leaf", i], ["nl", 0]]])
+                if rnd.random() < 0.4:
+                    # content that BEGINS with a line break (e.g. the text of a <pre> / <textarea>)
+                    nd["pre"] = rnd.choice([[["nl", 0]], [["eol", 0]], [["nl", 0], ["ind", 0]], [["ind", 0]]])
+                    if rnd.random() < 0.5:
+                        nd["tail"] = []
             return nd
         return node(1, root=True)
 
@@ -211,11 +225,11 @@ class _LayoutBase(Prop):
         for j in range(n):
             t = self.rand_tree(rnd, rnd.choice([8, 20, 60]), rnd.choice([3, 5, 8]), tails=(j % 3 == 0))
             eol = rnd.choice(self.EOLS)
-            if any(tk[0] == "eol" for nd in _walk(t) for tk in nd["tail"]) and eol == "":
+            if any(tk[0] == "eol" for nd in _walk(t) for tk in nd["tail"] + nd["pre"]) and eol == "":
                 eol = "\n"
-            if any(tk[0] == "nl" for nd in _walk(t) for tk in nd["tail"]) and eol.startswith("\n"):
+            if any(tk[0] == "nl" for nd in _walk(t) for tk in nd["tail"] + nd["pre"]) and eol.startswith("\n"):
                 # a bare line feed in the content is only distinguishable from layout when eol is something else
-                has_eol_tail = any(tk[0] == "eol" for nd in _walk(t) for tk in nd["tail"])
+                has_eol_tail = any(tk[0] == "eol" for nd in _walk(t) for tk in nd["tail"] + nd["pre"])
                 eol = rnd.choice(["\r\n", "\ue003", " | ", "\t"] + ([] if has_eol_tail else [""]))
             gens.append({"kind": "render", "tree": t, "indent": rnd.randint(0, 5), "eol": eol,
                          "addws": (rnd.random() < 0.8) if t["k"] == "L" else True, "salt": rnd.randrange(1000)})
@@ -225,7 +239,7 @@ class _LayoutBase(Prop):
         H = _lib()
         t = norm_tree(g["tree"])
         eol = g["eol"]
-        obj = build(t, H, g.get("salt", 0), eol)
+        obj = build(t, H, g.get("salt", 0), eol, late_meta=g.get("salt", 0) % 4 == 3)
         obj0 = build(t, H, g.get("salt", 0), eol, strip_meta=True)
         out = render(obj, H, g["indent"], eol, g["addws"])
         out0 = render(obj0, H, g["indent"], eol, g["addws"])
